@@ -815,3 +815,20 @@ M("C14-ext-imports-sorted-by-simple-name", "C14", "src/interrogate/interfaceMake
 M("C14-benign-ext-imports-sorted-by-scoped-name", "C14", "src/interrogate/interfaceMakerPythonNative.cxx",
   "      return a->get_local_name(&parser) < b->get_local_name(&parser);", "      return b->get_local_name(&parser) > a->get_local_name(&parser);",
   benign=True)
+
+M("C11-remap-skips-incomplete-types", "C11", "src/interrogatedb/interrogateType.cxx",
+  "  _wrapped_type = remap.map_from(_wrapped_type);\n", "  _wrapped_type = remap.map_from(_wrapped_type);\n\n  if (!is_fully_defined()) {\n    return;\n  }\n",
+  expect="R11.1|InterrogateType::remap_indices|")
+M("C11-benign-remap-guards-zero", "C11", "src/interrogatedb/interrogateType.cxx",
+  "  _wrapped_type = remap.map_from(_wrapped_type);\n", "  if (_wrapped_type != 0) {\n    _wrapped_type = remap.map_from(_wrapped_type);\n  }\n",
+  benign=True)
+
+M("C02-nonconst-ref-recurses", "C02", "src/interrogate/typeManager.cxx",
+  "  case CPPDeclaration::ST_reference:\n    return !is_const(type->as_reference_type()->_pointing_at);", "  case CPPDeclaration::ST_reference:\n    return is_non_const_pointer_or_ref(type->as_reference_type()->_pointing_at);",
+  expect="R02.4|is_non_const_pointer_or_ref|ST_reference")
+M("C02-const-ptr-polarity", "C02", "src/interrogate/typeManager.cxx",
+  "    return is_const_pointer_or_ref(type->as_const_type()->_wrapped_around);\n\n  case CPPDeclaration::ST_pointer:\n    return is_const(type->as_pointer_type()->_pointing_at);", "    return is_const_pointer_or_ref(type->as_const_type()->_wrapped_around);\n\n  case CPPDeclaration::ST_pointer:\n    return !is_const(type->as_pointer_type()->_pointing_at);",
+  expect="R02.4|is_const_pointer_or_ref|ST_pointer")
+M("C02-benign-nonconst-ref-local", "C02", "src/interrogate/typeManager.cxx",
+  "  case CPPDeclaration::ST_reference:\n    return !is_const(type->as_reference_type()->_pointing_at);", "  case CPPDeclaration::ST_reference: {\n    CPPType *target = type->as_reference_type()->_pointing_at;\n    return !is_const(target);\n  }",
+  benign=True)
